@@ -1,5 +1,6 @@
 import Bardolph.Driver.TimePattern
 import Bardolph.Driver.Vm
+import Bardolph.Driver.Ast
 import Bardolph.Driver.Web
 /-! All driver handlers; `dispatch` routes one request line. -/
 namespace Bardolph.Driver
@@ -7,6 +8,7 @@ namespace Bardolph.Driver
 def handlers : List (String → List String → Option String) := [
   TP.handle,
   VmD.handle,
+  AstD.handle,
   Web.handle
 ]
 
